@@ -13,6 +13,10 @@ REGISTRY = {
     "C03": ("models", {"rel": []}),
     "C04": ("history", {"rel": []}),
     "C05": ("history", {"rel": []}),
+    "C06": ("cores", {"rel": []}),
+    "C07": ("cores", {"rel": []}),
+    "C08": ("itp", {"rel": []}),
+    "C09": ("itp", {"rel": []}),
     "C29": ("history", {"rel": []}),
     "C30": ("history", {"rel": []}),
 }
